@@ -14,7 +14,10 @@ delays zero, the delay-adjusted rules vs the unadjusted KernelSTDP (delayed and 
 per-cell overrides given to register_cell (learning rates of either sign, time constants, batch reduction — the
 constructor arguments are only defaults) and several cells of a multi-connection / multi-group Biclique layer trained
 by one trainer, each cell judged against the `S` stream of its OWN spike trains and effective hyper-parameters (cells
-sharing a connection: the sum of their documented updates).
+sharing a connection: the sum of their documented updates); (d) episodes: the trainer cleared once or twice mid-run
+(`clear()` / `clear(keepshape=True)`, which may replace the monitors' storage), on single cells and on the multi-cell
+configurations, with `inplace` (records written in place — an implementation option that never changes the documented update)
+off, given to the constructor, or overridden per cell either way round; every episode judged from the spikes since the last clear.
 """
 from __future__ import annotations
 
